@@ -66,7 +66,8 @@ def spec_universe(tier):
 
 DEFAULTS = ["[]", "{}", "set()", "([],)", "{'k': []}", "[[1]]"]
 DECL_KINDS = ["schema-plain", "schema-field", "schema-factory", "dataclass-plain", "dataclass-field", "func-plain", "func-param",
-              "schema-defer", "schema-defer-options", "dataclass-defer", "schema-defer-factory"]
+              "schema-defer", "schema-defer-options", "dataclass-defer", "schema-defer-factory", "schema-force-default",
+              "schema-force-default-runtime"]
 
 
 def bounds(tier):
@@ -173,6 +174,13 @@ def decl_source(kind, dexpr):
     if kind == "schema-defer-factory":
         return (f"D = {dexpr}\nclass S(Schema):\n    a: Any = Field(default_factory=lambda: D, defer_default=True)\ndef new():\n"
                 "    return S()\nget = lambda r: r.a\n")
+    if kind == "schema-force-default":
+        # force_default: every absent optional field takes (a fresh copy of) the option's value
+        return (f"D = {dexpr}\nclass S(Schema):\n    __options__ = Options(force_default=D)\n    a: Any = Field(required=False)\n"
+                "    b: Any = Field(required=False)\ndef new():\n    return S()\nget = lambda r: [r.a, r.b]\n")
+    if kind == "schema-force-default-runtime":
+        return (f"D = {dexpr}\nclass S(Schema):\n    a: Any = Field(required=False)\n    b: Any = None\n"
+                "OPT = Options(force_default=D)\ndef new():\n    return S.__from__({}, options=OPT)\nget = lambda r: [r.a, r.b]\n")
     if kind == "func-plain":
         return f"D = {dexpr}\n@utype.parse\ndef F(a: Any = D, n: int = 0):\n    return a\ndef new():\n    return F()\nget = lambda r: r\n"
     if kind == "func-param":
@@ -202,6 +210,8 @@ def _defaults(acc, kind, di, tier):
     maxlen = 5 if tier == "thorough" else 4
     src = decl_source(kind, dexpr)
     declared = canon(ev(dexpr))
+    if kind.startswith("schema-force-default"):
+        declared = canon([ev(dexpr), ev(dexpr)])      # both absent fields read the forced value, independently
     factory = kind in ("schema-factory", "schema-defer-factory")
     for n in range(1, maxlen + 1):
         for hist in itertools.product(("new", "mut-first", "mut-last"), repeat=n):
@@ -235,7 +245,7 @@ def _defaults(acc, kind, di, tier):
                         bad = (f"after {list(hist[:step + 1])} result #{j} (never mutated) reads {short(env['get'](r), 60)} instead of "
                                f"the declared default {dexpr}", "result-changed")
                         break
-                if not bad and not factory and canon(env["D"]) != declared:
+                if not bad and not factory and canon(env["D"]) != canon(ev(dexpr)):
                     bad = (f"after {list(hist[:step + 1])} the declared default object itself is now {short(env['D'], 60)}", "default-object-changed")
                 if not bad and touched:
                     fresh = env["new"]()
@@ -255,9 +265,9 @@ def _defaults(acc, kind, di, tier):
                                     "for op in hist:", "    if op == 'new': results.append(new())",
                                     "    else:", "        i = 0 if op == 'mut-first' else len(results) - 1",
                                     "        c19.mutate_all_levels(get(results[i])); touched.add(i)",
-                                    f"declared = canon({dexpr})",
+                                    f"declared = canon({dexpr}) if not {kind.startswith('schema-force-default')!r} else canon([{dexpr}, {dexpr}])",
                                     "bad = any(canon(get(r)) != declared for j, r in enumerate(results) if j not in touched)",
-                                    f"bad = bad or ({not factory!r} and (canon(D) != declared or canon(get(new())) != declared))",
+                                    f"bad = bad or ({not factory!r} and (canon(D) != canon({dexpr}) or canon(get(new())) != declared))",
                                     "print([get(r) for r in results], D); sys.exit(1 if bad else 0)"]) + "\n"
                 acc.violation(fp, f"{kind} with default {dexpr}: {bad[0]}", script)
             elif acc.states % 29 == 0:
